@@ -1,4 +1,69 @@
-/- C09 — property theorems (stub; filled in by the owning work package). -/
-import Rdm.Basic
+/-
+  C09 — decisions are stateless: inputs untouched, reports faithful, no history.
+
+  The model is a pure function, so "the response does not depend on earlier requests" and "the
+  request value is not modified" hold of it by construction; what a pure model cannot exhibit is
+  aliasing in the Go heap — that part of C09 is decided on the real code by the harness
+  (deep before/after comparison of every state handed from stage to stage; see harness/main/c09.go)
+  and is labelled partial in MANIFEST/DESIGN.  What IS a theorem is the hand-over discipline of the
+  pipeline: every fired bias receives exactly the state the previous fired bias returned, its
+  report in the response is the report it returned, and the method receives the last state.
+-/
+import Rdm.Model.Pipeline
 namespace Rdm.Props.C09
+open Rdm
+
+variable {α : Type} [Num α] {S P Rep : Type}
+
+/-- the hand-over chain of `processBiases` -/
+inductive Chain (apply : String → P → S → S → R (S × Rep)) (orig : S) :
+    List (Chosen α P) → S → List (BiasOut α Rep) → S → Prop where
+  | nil (s : S) : Chain apply orig [] s [] s
+  | fired (b : Chosen α P) (rest) (s s' fin : S) (rep : Rep) (outs) :
+      apply b.name b.props orig s = .ok (s', rep) → Chain apply orig rest s' outs fin →
+      Chain apply orig (b :: rest) s (⟨b.name, b.prob, some rep⟩ :: outs) fin
+  | skipped (b : Chosen α P) (rest) (s fin : S) (outs) :
+      Chain apply orig rest s outs fin →
+      Chain apply orig (b :: rest) s (⟨b.name, b.prob, none⟩ :: outs) fin
+
+/-- Every successful run of `processBiases` is a hand-over chain: bias k+1 (and finally the method)
+    receives exactly what the last fired bias returned; a report in the response is the report the
+    bias returned, unaltered; a bias that did not fire hands the state on unchanged. -/
+theorem process_is_chain (apply : String → P → S → S → R (S × Rep)) (orig : S) :
+    ∀ (chosen : List (Chosen α P)) (cur : S) (d : Draws α) (fin : S) (outs : List (BiasOut α Rep)),
+      processLoop apply orig chosen cur d = .ok (fin, outs) → Chain apply orig chosen cur outs fin
+  | [], cur, d, fin, outs, h => by
+    simp [processLoop, pure, Except.pure] at h
+    obtain ⟨rfl, rfl⟩ := h
+    exact .nil _
+  | b :: rest, cur, d, fin, outs, h => by
+    unfold processLoop at h
+    cases d with
+    | nil => simp [draw, bind, Except.bind, throw, throwThe, MonadExceptOf.throw] at h
+    | cons u d' =>
+      simp only [draw, bind, Except.bind, pure, Except.pure] at h
+      by_cases hu : u < b.prob
+      · simp only [hu, if_true] at h
+        cases ha : apply b.name b.props orig cur with
+        | error e => simp [ha] at h
+        | ok nr =>
+          obtain ⟨next, rep⟩ := nr
+          simp only [ha] at h
+          cases hr : processLoop apply orig rest next d' with
+          | error e => simp [hr] at h
+          | ok fo =>
+            obtain ⟨fin', outs'⟩ := fo
+            simp only [hr, Except.ok.injEq, Prod.mk.injEq] at h
+            obtain ⟨rfl, rfl⟩ := h
+            exact .fired b rest cur next fin' rep outs' ha
+              (process_is_chain apply orig rest next d' fin' outs' hr)
+      · simp only [hu, if_false] at h
+        cases hr : processLoop apply orig rest cur d' with
+        | error e => simp [hr] at h
+        | ok fo =>
+          obtain ⟨fin', outs'⟩ := fo
+          simp only [hr, Except.ok.injEq, Prod.mk.injEq] at h
+          obtain ⟨rfl, rfl⟩ := h
+          exact .skipped b rest cur fin' outs' (process_is_chain apply orig rest cur d' fin' outs' hr)
+
 end Rdm.Props.C09
